@@ -304,7 +304,7 @@ class C01(Check):
             "trace; non-trivial = execution with >=1 lock wait / commit back-off / CAS conflict")
     assumptions = [
         "pointer-flip order is observed at the storage boundary (successful write of metadata.version-hint.text)",
-        "multi-process topology is exercised by the stress part under the OS scheduler (thorough tier only)",
+        "multi-process topology is exercised by the stress part under the OS scheduler (one small run in quick, 8 larger in thorough)",
         "S3 double = strongly consistent store with conditional PUT",
     ]
     require = {"executions_ok": 100, "flips_checked": 100, "contended_executions": 10}
@@ -356,6 +356,8 @@ class C01(Check):
         if tier == "thorough":
             for i in range(8):
                 yield {"mode": "procs", "nproc": 4 + (i % 3) * 2, "commits": 25, "seed": seed * 1000 + i}
+        else:
+            yield {"mode": "procs", "nproc": 4, "commits": 8, "seed": seed * 1000}
 
     # ------------------------------------------------------------------
     def run_case(self, case: Any, res: CaseResult, tier: str) -> None:
